@@ -1,7 +1,337 @@
-/- C07: model not built yet (stub so that the per-property driver links). -/
+/-
+C07 — record-atomic, order-preserving file writing under any disk timing.
+
+Model of `asyncbufio.Writer` (bounded channel of byte chunks, non-blocking `Write`, consumer
+goroutine `writeLoop`/`flush`, `Flush`/`Close` rendezvous) and of the way the file writers
+(`ljh.Writer`, `ljh.Writer3`, `off.Writer`) use it: a record is a list of chunk writes issued in
+order, aborted at the first error (`if _, err := w.writer.Write(..); err != nil { return err }`).
+
+A *schedule* is an explicit list of `Op`s: producer actions (`w`, `endRec`, `flush`, `close`) and
+consumer actions (`pop n` = the writer goroutine moves chunks from the channel into the
+`bufio.Writer`; `sync n` = `bufio` hands `n` buffered bytes to the file) in any interleaving.
+A disk stall is a stretch of the schedule without `pop`/`sync`.  The ticker flush of `writeLoop`
+is a particular sequence `pop … sync` and needs no op of its own.
+
+Model assumptions (not verified): Go buffered-channel semantics (`select`/`default` send fails iff
+the channel holds `cap` elements; FIFO), `bufio.Writer` (bytes leave in order; `Flush` empties it),
+one producer goroutine per writer (dastard: the channel's processing goroutine), `cap ≥ 1`.
+-/
 import DastardV.Proto
 namespace DastardV.C07
 
-def runLine (_ts : List String) : Verdict := .bad "C07: model not built yet"
+abbrev Chunk := List Nat
+
+/-- `asyncbufio.Writer` + its `bufio.Writer` + the file. -/
+structure Q where
+  cap : Nat
+  q : List Chunk          -- `datachannel`, oldest first
+  buf : List Chunk        -- handed to `bufio` by the writer goroutine, not yet in the file
+  file : List Nat         -- the underlying writer's content
+  closed : Bool           -- `Close` has returned (writer goroutine gone)
+deriving Repr, DecidableEq
+
+def Q.init (cap : Nat) : Q := { cap, q := [], buf := [], file := [], closed := false }
+
+/-- `Writer.Write`: `select { case datachannel <- p: ok; default: io.ErrShortWrite }`.
+After `Close` the channel still exists: a write is still "accepted" while there is room (and lost). -/
+def Q.write (s : Q) (c : Chunk) : Q × Bool :=
+  if s.q.length < s.cap then ({ s with q := s.q ++ [c] }, true) else (s, false)
+
+/-- the writer goroutine receives up to `n` chunks and `bufio.Write`s them; returns how many. -/
+def Q.pop (s : Q) (n : Nat) : Q × Nat :=
+  if s.closed then (s, 0) else
+  ({ s with q := s.q.drop n, buf := s.buf ++ s.q.take n }, min n s.q.length)
+
+/-- `bufio` passes up to `n` buffered bytes on to the file; returns how many. -/
+def Q.sync (s : Q) (n : Nat) : Q × Nat :=
+  if s.closed then (s, 0) else
+  ({ s with file := s.file ++ s.buf.flatten.take n, buf := [s.buf.flatten.drop n] },
+   min n s.buf.flatten.length)
+
+/-- `flush()` run to completion while the producer waits: empty the channel, `bufio.Flush`. -/
+def Q.drain (s : Q) : Q :=
+  { s with file := s.file ++ s.buf.flatten ++ s.q.flatten, buf := [], q := [] }
+
+/-- everything accepted and not yet lost: file, then bufio, then channel (FIFO order). -/
+def Q.stream (s : Q) : List Nat := s.file ++ s.buf.flatten ++ s.q.flatten
+
+/-- One step of a schedule. -/
+inductive Op where
+  | w (c : Chunk)      -- producer: next `writer.Write(c)` of the current record (skipped once the record has failed)
+  | endRec             -- producer: `WriteRecord` returns (nil, or the first error)
+  | pop (n : Nat)      -- consumer: n channel receives
+  | sync (n : Nat)     -- bufio → file, n bytes
+  | flush              -- producer: `Flush()` (blocks until done)
+  | close              -- producer: `Close()`
+  | snap               -- observer: look at the file now
+deriving Repr, DecidableEq
+
+/-- What one step shows to the outside (the protocol tokens of the case lines). -/
+inductive Tok where
+  | w (c : Chunk) (ok : Bool)          -- a chunk write was issued; accepted?
+  | e (ok : Bool)                      -- the record call returned; nil?
+  | R (bytes : List Nat) (ok : Bool)   -- a whole record call whose chunking is not visible (real writers, k>1)
+  | p (n : Nat)
+  | y (n : Nat)
+  | f (qlen : Nat) (delta : List Nat)  -- Flush returned; queue length seen; file bytes since the last look
+  | c (qlen : Nat) (delta : List Nat)  -- Close returned
+  | z (delta : List Nat)               -- a look at the file
+  | fx                                 -- Flush after Close: Go panics (send on closed channel)
+  | cx                                 -- Close after Close: Go panics (close of closed channel)
+deriving Repr, DecidableEq
+
+structure Sys where
+  s : Q
+  recOk : Bool       -- no write of the current record has failed yet
+  seen : Nat         -- file length at the last look
+deriving Repr, DecidableEq
+
+def Sys.init (cap : Nat) : Sys := { s := Q.init cap, recOk := true, seen := 0 }
+
+def step (y : Sys) : Op → Sys × List Tok
+  | .w c =>
+    if y.recOk then
+      ({ y with s := (y.s.write c).1, recOk := (y.s.write c).2 }, [.w c (y.s.write c).2])
+    else (y, [])
+  | .endRec => ({ y with recOk := true }, [.e y.recOk])
+  | .pop n => ({ y with s := (y.s.pop n).1 }, [.p (y.s.pop n).2])
+  | .sync n => ({ y with s := (y.s.sync n).1 }, [.y (y.s.sync n).2])
+  | .flush =>
+    if y.s.closed then (y, [.fx]) else
+    ({ y with s := y.s.drain, seen := y.s.drain.file.length }, [.f 0 (y.s.drain.file.drop y.seen)])
+  | .close =>
+    if y.s.closed then (y, [.cx]) else
+    ({ y with s := { y.s.drain with closed := true }, seen := y.s.drain.file.length },
+     [.c 0 (y.s.drain.file.drop y.seen)])
+  | .snap => ({ y with seen := y.s.file.length }, [.z (y.s.file.drop y.seen)])
+
+def runOps : Sys → List Op → Sys × List Tok
+  | y, [] => (y, [])
+  | y, o :: os => ((runOps (step y o).1 os).1, (step y o).2 ++ (runOps (step y o).1 os).2)
+
+/-- chunks the writer accepted, in order (ghost stream of `q_fifo`). -/
+def accOf (ts : List Tok) : List Chunk :=
+  ts.filterMap fun t => match t with | .w c true => some c | _ => none
+
+/-! ### The oracle: the property statement on what can be observed
+
+`whole` = bytes of every record whose call returned nil, in order (the header is the first
+record).  At every `Flush`/`Close` return the file must be exactly `whole` (each record fully in
+or not at all, in order, nothing missing); at any other look it must be a prefix of `whole`
+followed by the record in progress.  Steps after `Close` are outside the statement. -/
+
+inductive Bad where
+  | partialRecord      -- at a flush/close return the file is not the accepted records (holds foreign/partial bytes)
+  | flushIncomplete    -- at a flush/close return accepted data is missing from the file
+  | notPrefix          -- at some moment the file is not a prefix of the accepted data
+deriving Repr, DecidableEq
+
+structure OSt where
+  whole : List Chunk     -- accepted records
+  cur : List Chunk       -- chunks issued for the record in progress
+  file : List Chunk      -- file contents seen so far (deltas)
+  closed : Bool
+deriving Repr, DecidableEq
+
+def OSt.init : OSt := { whole := [], cur := [], file := [], closed := false }
+
+def flushChk (o : OSt) (d : List Nat) (cl : Bool) : Except Bad OSt :=
+  let o' := { o with file := o.file ++ [d], closed := cl }
+  if o.cur ≠ [] then .ok o'          -- producer is sequential: no flush inside a record call (not judged)
+  else if o'.file.flatten = o.whole.flatten then .ok o'
+  else if o'.file.flatten.isPrefixOf o.whole.flatten then .error .flushIncomplete
+  else .error .partialRecord
+
+def ostep (o : OSt) (t : Tok) : Except Bad OSt :=
+  if o.closed then .ok o else
+  match t with
+  | .w c _ => .ok { o with cur := o.cur ++ [c] }
+  | .e ok => .ok { o with whole := if ok then o.whole ++ [o.cur.flatten] else o.whole, cur := [] }
+  | .R b ok => .ok { o with whole := if ok then o.whole ++ [b] else o.whole }
+  | .f _ d => flushChk o d false
+  | .c _ d => flushChk o d true
+  | .z d =>
+    if (o.file ++ [d]).flatten.isPrefixOf (o.whole ++ o.cur).flatten
+    then .ok { o with file := o.file ++ [d] } else .error .notPrefix
+  | _ => .ok o
+
+def chkToks : OSt → List Tok → Except Bad OSt
+  | o, [] => .ok o
+  | o, t :: ts => match ostep o t with
+    | .ok o' => chkToks o' ts
+    | .error e => .error e
+
+/-- the oracle of the property: `true` = the observation satisfies C07. -/
+def chkC07 (ts : List Tok) : Bool := (chkToks OSt.init ts).isOk
+
+/-! ### How `PublishData` / `processSegment` treat the writers' results
+
+`publish_data.go`: the results of `LJH22.WriteRecord` and `LJH3.WriteRecord` are dropped; an error
+of `OFF.WriteRecord` is returned, and `processSegment` does `panic(err)`. -/
+
+inductive PubOut where
+  | done | crash
+deriving Repr, DecidableEq
+
+/-- one record through `PublishData`+`processSegment`; arguments: did each active writer accept it
+(`none` = writer not active). -/
+def publishOne (ljh22 ljh3 off : Option Bool) : PubOut :=
+  match ljh22, ljh3, off with
+  | _, _, some false => .crash
+  | _, _, _ => .done
+
+/-! ### Driver -/
+
+def opOf : Tok → List Op
+  | .w c _ => [.w c]
+  | .e _ => [.endRec]
+  | .R _ _ => []
+  | .p n => [.pop n]
+  | .y n => [.sync n]
+  | .f _ _ => [.flush]
+  | .c _ _ => [.close]
+  | .z _ => [.snap]
+  | .fx => [.flush]
+  | .cx => [.close]
+
+open P in
+def parseTok : P Tok := do
+  let t ← tok
+  match t with
+  | "w" => do let c ← bytes; let ok ← bool; pure (.w c ok)
+  | "e" => do let ok ← bool; pure (.e ok)
+  | "R" => do let c ← bytes; let ok ← bool; pure (.R c ok)
+  | "p" => do let n ← nat; pure (.p n)
+  | "y" => do let n ← nat; pure (.y n)
+  | "f" => do let q ← nat; let d ← bytes; pure (.f q d)
+  | "c" => do let q ← nat; let d ← bytes; pure (.c q d)
+  | "z" => do let d ← bytes; pure (.z d)
+  | "fx" => pure .fx
+  | "cx" => pure .cx
+  | _ => fail s!"bad token {t}"
+
+/-- tokens up to the end of the line (fuel = number of remaining strings) -/
+def parseToks : Nat → P (List Tok)
+  | 0 => pure []
+  | fuel + 1 => do
+    if (← P.atEnd) then pure [] else
+    let t ← parseTok
+    let r ← parseToks fuel
+    pure (t :: r)
+
+structure Hdr where
+  kind : String
+  cap : Nat
+  wpr : Nat          -- `writer.Write` calls per `WriteRecord`, re-counted from the source by the harness
+  hdrw : Nat         -- same for `WriteHeader`
+  chk : Bool         -- the records of this line are issued the way the real writers issue them
+
+def parseHdr : P Hdr := do
+  let kind ← P.tok
+  P.kw "cap"; let cap ← P.nat
+  P.kw "wpr"; let wpr ← P.nat
+  P.kw "hdrw"; let hdrw ← P.nat
+  P.kw "chk"; let chk ← P.bool
+  pure { kind, cap, wpr, hdrw, chk }
+
+def splitOut : List String → List String × List String
+  | [] => ([], [])
+  | "OUT" :: r => ([], r)
+  | t :: r => let (a, b) := splitOut r; (t :: a, b)
+
+def site (kind : String) : String := kind.toLower
+
+def badName : Bad → String
+  | .partialRecord => "partial-record"
+  | .flushIncomplete => "flush-incomplete"
+  | .notPrefix => "not-prefix"
+
+def badText : Bad → String
+  | .partialRecord => "after Flush/Close returned the file is not header ++ whole accepted records in order (it holds part of a record that was rejected with an error, or foreign bytes)"
+  | .flushIncomplete => "data accepted before Flush/Close returned is missing from the file when the call returned"
+  | .notPrefix => "the file is not a prefix of the accepted data (order not preserved)"
+
+def firstDiffTok : List Tok → List Tok → Nat → Option Nat
+  | [], [], _ => none
+  | a :: as, b :: bs, i => if a = b then firstDiffTok as bs (i + 1) else some i
+  | _, _, i => some i
+
+def isRej : Tok → Bool | .w _ false => true | _ => false
+def isRecRej : Tok → Bool | .e false => true | .R _ false => true | _ => false
+def isFlush : Tok → Bool | .f _ _ => true | _ => false
+def isClose : Tok → Bool | .c _ _ => true | _ => false
+def isMisuse : Tok → Bool | .fx => true | .cx => true | _ => false
+def isSync : Tok → Bool | .y _ => true | _ => false
+
+/-- number of chunks in the longest record of the observation -/
+def maxChunks : Nat → Nat → List Tok → Nat
+  | m, _, [] => m
+  | m, k, .w _ _ :: r => maxChunks (max m (k + 1)) (k + 1) r
+  | m, _, .e _ :: r => maxChunks m 0 r
+  | m, k, _ :: r => maxChunks m k r
+
+def runQ (h : Hdr) (outs : List String) : Verdict :=
+  match outs with
+  | "PANIC" :: cls => .viol s!"C07:crash-{site h.kind} the real code crashed ({" ".intercalate cls})"
+  | "HANG" :: _ => .viol s!"C07:hang-{site h.kind} the real code did not return"
+  | _ =>
+  match P.run (do P.kw "T"; let _ ← P.nat; parseToks outs.length) outs with
+  | .error e => .bad e
+  | .ok toks =>
+    match (if h.chk then chkToks OSt.init toks else .ok OSt.init) with
+    | .error b => .viol s!"C07:{badName b}-{site h.kind} {badText b}"
+    | .ok _ =>
+      if h.chk && h.wpr != 1 then
+        .diff s!"wpr the model of the {h.kind} writer assumes ONE Write per record (C07_whole_records_only needs it); the source now issues {h.wpr}"
+      else if toks.any (fun t => match t with | .R _ _ => true | _ => false) then
+        .diff "opaque multi-chunk record on a line the model is asked to reproduce"
+      else
+        let m := (runOps (Sys.init h.cap) (toks.flatMap opOf)).2
+        match firstDiffTok m toks 0 with
+        | some i => .diff s!"token {i}: model and implementation disagree (accept/reject, pop/sync bookkeeping or file bytes)"
+        | none =>
+          let tags := [site h.kind] ++
+            (if toks.any isRej then ["full"] else []) ++
+            (if toks.any isRecRej then ["rejected-record"] else []) ++
+            (if toks.any isFlush then ["flush"] else []) ++
+            (if toks.any isClose then ["close"] else []) ++
+            (if toks.any isMisuse then ["use-after-close"] else []) ++
+            (if toks.any isSync then ["partial-sync"] else []) ++
+            (if maxChunks 0 0 toks > 1 then ["multichunk"] else []) ++
+            (if h.hdrw > 1 then ["multichunk-header"] else [])
+          .ok tags
+
+/-- `PD` lines: records pushed through the real `processSegment`/`PublishData` with the writers on
+stalled pipes.  Input: which writers are active; OUT: `PANIC …` | `D <per writer: T toks>`. -/
+def runPD (ins outs : List String) : Verdict :=
+  let hasOff := ins.contains "off"
+  match outs with
+  | "PANIC" :: cls =>
+    -- model: the OFF writer rejects a record once its queue is full -> PublishData returns it -> panic
+    if hasOff then .viol s!"C07:stall-crash-off a stalled disk filled the OFF write queue; PublishData returned the writer's error and processSegment panicked ({" ".intercalate cls})"
+    else .viol s!"C07:crash-pd the real code crashed ({" ".intercalate cls})"
+  | "HANG" :: _ => .viol "C07:hang-pd the real code did not return"
+  | _ =>
+    let p : P (List (String × List Tok)) := do
+      P.kw "D"
+      P.list (do let k ← P.tok; P.kw "T"; let ts ← P.list parseTok; pure (k, ts))  -- PD: exact counts
+    match P.run p outs with
+    | .error e => .bad e
+    | .ok ws =>
+      match ws.findSome? (fun (k, ts) => match chkToks OSt.init ts with | .error b => some (k, b) | .ok _ => none) with
+      | some (k, b) => .viol s!"C07:{badName b}-pd-{k} {badText b}"
+      | none =>
+        if hasOff && ws.any (fun (k, ts) => k == "off" && ts.any isRecRej) then
+          .diff "an OFF record was rejected but processSegment did not panic (model of publish_data.go/process_data.go is stale)"
+        else .ok (["pd"] ++ (if ws.any (fun (_, ts) => ts.any isRecRej) then ["full", "rejected-record"] else []))
+
+def runLine (ts : List String) : Verdict :=
+  let (ins, outs) := splitOut ts
+  match ins with
+  | "PD" :: _ => runPD ins outs
+  | _ =>
+    match P.run parseHdr ins with
+    | .error e => .bad e
+    | .ok h => runQ h outs
 
 end DastardV.C07
